@@ -8,6 +8,7 @@ mod c04;
 mod c05;
 mod c09;
 mod c11;
+mod c13;
 mod sp;
 mod case;
 mod gen;
@@ -71,6 +72,10 @@ fn main() {
                 "C11" => {
                     rep = Report::new("C11", "single editing operations on trees in four arena layouts: on every shape up to a node bound with two length masks EVERY argument (every node for prune incl. removed/out-of-range, every ordered pair for merge_children, several factors, several seeds for resolve), random operations on random trees to 60 nodes; the arena after the operation is compared with the model and with a rose-level expectation computed by the harness; a case is one (tree, operation); non-trivial = the operation succeeded");
                     c11::run(tier == "thorough", seed, &driver, &mut rep);
+                }
+                "C13" => {
+                    rep = Report::new("C13", "matrices of every size from 0 to a bound with distinct cell values: every ordered pair read, every pair set and the whole table read back, indexed iteration, pair-keyed map, extrema with ties; random set/get sequences against a plain table; the crate's floating-point inverse index against an integer inverse at every triangular-number boundary (stride-sampled in the quick tier) below 2^50; a case is one matrix or one sequence; non-trivial = at least three taxa");
+                    c13::run(tier == "thorough", seed, &driver, &mut rep);
                 }
                 "C02" => {
                     rep = Report::new("C02", "strings fed to Tree::from_newick (corpus, every string up to a length bound over the token alphabet ( ) , ; : [ ] \" a 1 space, every short float lexeme, mutated valid Newick, random Unicode); a case is one string; non-trivial = contains at least one structural token");
